@@ -172,6 +172,7 @@ def check(chk):
 
     _deferred_writes(chk, repo)
     _player_addressing(chk, repo)
+    _events_switched_on(chk, repo)
     _score_queue_adds(chk, repo)
 
     # ------------------------------------------------------------ FLOW-4
@@ -381,6 +382,33 @@ def _score_queue_adds(chk, repo):
            detail="%s / %s" % ([src(x) for x in ups + stores], [src(x) for x in downs]), construct=f.ident, text="score queue conservation")
 
 
+def _events_switched_on(chk, repo):
+    """DOM-21 (arming): a new player's variable events are switched on -- with all current values sent -- as soon as player_added
+    has been posted: Game posts player_added with a completion callback that enables the events; enable_events stores the flag and
+    sends the values exactly when asked to."""
+    GMF = "mpf/modes/game/code/game.py"
+    pa = repo.func(GMF, "Game._player_added")
+    chk.analysed(pa)
+    en = [c for c in pa.calls() if call_attr(c) == "enable_events" and src(c.func.value) == "player"]
+    ok = len(en) == 1 and [src(a) for a in en[0].args] == ["True", "True"] and not en[0].keywords
+    chk.ob("DOM-21", "Game._player_added switches the new player's variable events on and sends all current values", ok, pa.where(), construct=pa.ident,
+           text="player events switched on")
+    pc = repo.func(GMF, "Game._player_adding_complete")
+    posts = [c for c in pc.calls() if call_attr(c) == "post" and c.args and const_value(c.args[0]) == "player_added"]
+    ok = len(posts) == 1 and kwarg(posts[0], "callback") is not None and src(kwarg(posts[0], "callback")) == "self._player_added" and \
+        kwarg(posts[0], "player") is not None and src(kwarg(posts[0], "player")) == "player"
+    chk.ob("DOM-21", "player_added is posted for the new player with the enabling callback", ok, pc.where(), construct=pc.ident, text="player_added callback")
+    ee = repo.func("mpf/core/player.py", "Player.enable_events")
+    chk.analysed(ee)
+    ec = ee.cfg()
+    st = [x for x in walk_local(ee.node) if isinstance(x, ast.Assign) and src(x.targets[0]) == "self._events_enabled" and src(x.value) == "enable"]
+    sn = [n for n, c in ec.calls_named("send_all_variable_events")]
+    from sa.cfg import canon_set, canon_fact
+    ok = len(st) == 1 and len(sn) == 1 and set(canon_set(ec.guards_at(sn[0].id))) == {canon_fact("enable", True), canon_fact("send_all_variables", True)}
+    chk.ob("DOM-21", "enable_events stores the flag and sends all values exactly when enabling with send_all_variables", ok, ee.where(), construct=ee.ident,
+           text="enable_events body")
+
+
 def _player_addressing(chk, repo):
     """IDX-1: which player a write or a read addresses.  Config player numbers are 1-based, player_list is 0-based; without a
     number the current player is meant; machine actions never touch a player; both player-placeholder access paths agree."""
@@ -480,6 +508,7 @@ def battery():
         M("turn changes while a stopping mode is still bound", MC, "            if mode.auto_stop_on_ball_end:\n", "            if mode.auto_stop_on_ball_end and not mode.stopping:\n", "DOM-22"),
         M("twin: turn start loop with a positive test", MC, "            if not mode.is_game_mode:\n                continue\n            mode.player = player", "            if mode.is_game_mode:\n                mode.player = player", None),
         M("score queue overwrites the player's score with the digit", "mpf/devices/score_queue.py", "                self.machine.game.player[self.name] += digit_score", "                self.machine.game.player[self.name] = digit_score", "BARRIER-1"),
+        M("new player's variable events never switched on", "mpf/modes/game/code/game.py", "        player.enable_events(True, True)", "        pass", "DOM-21"),
     ]
 
 
